@@ -85,6 +85,10 @@ func pluginFor(tok string) config.PluginConfig {
 		return config.PluginConfig{Name: "custom-auth", Config: map[string]interface{}{}}
 	case "AUTH_numkey!":
 		return config.PluginConfig{Name: "custom-auth", Config: map[string]interface{}{"apiKey": 42}}
+	case "AUTHBLANK":
+		return config.PluginConfig{Name: "custom-auth", Config: map[string]interface{}{"apiKey": " \n"}}
+	case "AUTH_emptykey!":
+		return config.PluginConfig{Name: "custom-auth", Config: map[string]interface{}{"apiKey": ""}}
 	case "SIZE_neg!":
 		return config.PluginConfig{Name: "size_limit", Config: map[string]interface{}{"max_request_body": -1}}
 	case "SIZE_zero!":
